@@ -1,10 +1,160 @@
 /-
-  Helper lemmas for the C04 simulation theorem (Props/C04Sim.lean).
+  Helper lemmas for the C04 simulation theorem (Props/C04Sim.lean) — part 1:
+  run composition (`Steps`), program layout (`At`), argument binding of literal words,
+  the condition lemma and the straight-line command lemma.
 -/
 import DuckModel.Sdk.Flow
 import DuckModel.Spec.TreeSimple
+import DuckModel.Lemmas.ExpansionLemmas
+import DuckModel.Lemmas.RunnerLemmas
 
 namespace Duck
 open Duck.Spec Duck.Generated
+
+/-! ### run composition -/
+
+/-- the machine, started in `(l, v, s)`, reaches `(l', v', s')` after finitely many steps, whatever
+    the nested evaluator, the remaining fuel and the poll counter are -/
+def Steps (is : List Instruction) (l : Nat) (v : Vars) (s : Sdk) (l' : Nat) (v' : Vars) (s' : Sdk) :
+    Prop :=
+  ∃ n, ∀ (nested : EvalFn) (k p : Nat),
+    runLoop (sdkSem nested is) is (labelTable is) (fun _ _ => false) (n + k) ⟨l, p, v, s⟩ =
+      runLoop (sdkSem nested is) is (labelTable is) (fun _ _ => false) k ⟨l', p + n, v', s'⟩
+
+theorem Steps.refl (is : List Instruction) (l : Nat) (v : Vars) (s : Sdk) : Steps is l v s l v s :=
+  ⟨0, fun _ k p => by simp⟩
+
+theorem Steps.trans {is : List Instruction} {l1 l2 l3 : Nat} {v1 v2 v3 : Vars} {s1 s2 s3 : Sdk}
+    (h1 : Steps is l1 v1 s1 l2 v2 s2) (h2 : Steps is l2 v2 s2 l3 v3 s3) :
+    Steps is l1 v1 s1 l3 v3 s3 := by
+  obtain ⟨n1, h1⟩ := h1
+  obtain ⟨n2, h2⟩ := h2
+  refine ⟨n1 + n2, fun nested k p => ?_⟩
+  rw [Nat.add_assoc, h1, h2, Nat.add_assoc]
+
+theorem Steps.single {is : List Instruction} {l l' : Nat} {v v' : Vars} {s s' : Sdk}
+    (h : ∀ (nested : EvalFn) (p : Nat),
+      runStep (sdkSem nested is) is (labelTable is) (fun _ _ => false) ⟨l, p, v, s⟩ =
+        .inl ⟨l', p + 1, v', s'⟩) :
+    Steps is l v s l' v' s' := by
+  refine ⟨1, fun nested k p => ?_⟩
+  rw [Nat.add_comm 1 k, runLoop_succ, h]
+
+theorem Steps.cast {is : List Instruction} {l l' l'' : Nat} {v v' v'' : Vars} {s s' s'' : Sdk}
+    (h : Steps is l v s l' v' s') (hl : l' = l'') (hv : v' = v'') (hs : s' = s'') :
+    Steps is l v s l'' v'' s'' := by
+  subst hl; subst hv; subst hs; exact h
+
+/-! ### program layout -/
+
+theorem instrsFrom_nil (n : Nat) : instrsFrom n [] = [] := rfl
+
+theorem instrsFrom_cons (n : Nat) (x : ScriptInstr) (l : List ScriptInstr) :
+    instrsFrom n (x :: l) = ⟨{ line := some (n + 1), source := none }, .script x⟩ :: instrsFrom (n + 1) l :=
+  rfl
+
+theorem length_instrsFrom (n : Nat) (l : List ScriptInstr) : (instrsFrom n l).length = l.length := by
+  induction l generalizing n with
+  | nil => rfl
+  | cons x l ih => simp [instrsFrom_cons, ih]
+
+theorem instrsFrom_append (n : Nat) (a b : List ScriptInstr) :
+    instrsFrom n (a ++ b) = instrsFrom n a ++ instrsFrom (n + a.length) b := by
+  induction a generalizing n with
+  | nil => simp [instrsFrom_nil]
+  | cons x a ih =>
+    simp only [List.cons_append, instrsFrom_cons, ih, List.length_cons]
+    congr 3
+    omega
+
+/-- the script lines `l` sit in the program `is` from 0-based index `lo` on -/
+def At (is : List Instruction) (lo : Nat) (l : List ScriptInstr) : Prop :=
+  ∃ pre post, pre.length = lo ∧ is = pre ++ instrsFrom lo l ++ post
+
+theorem At.left {is : List Instruction} {lo : Nat} {a b : List ScriptInstr} (h : At is lo (a ++ b)) :
+    At is lo a := by
+  obtain ⟨pre, post, hl, rfl⟩ := h
+  refine ⟨pre, instrsFrom (lo + a.length) b ++ post, hl, ?_⟩
+  rw [instrsFrom_append]
+  simp
+
+theorem At.right {is : List Instruction} {lo : Nat} {a b : List ScriptInstr} (h : At is lo (a ++ b)) :
+    At is (lo + a.length) b := by
+  obtain ⟨pre, post, hl, rfl⟩ := h
+  refine ⟨pre ++ instrsFrom lo a, post, ?_, ?_⟩
+  · simp [length_instrsFrom, hl]
+  · rw [instrsFrom_append]
+    simp
+
+theorem At.tail {is : List Instruction} {lo : Nat} {x : ScriptInstr} {l : List ScriptInstr}
+    (h : At is lo (x :: l)) : At is (lo + 1) l := by
+  have := At.right (a := [x]) (b := l) (by simpa using h)
+  simpa using this
+
+theorem At.head {is : List Instruction} {lo : Nat} {x : ScriptInstr} {l : List ScriptInstr}
+    (h : At is lo (x :: l)) :
+    is[lo]? = some ⟨{ line := some (lo + 1), source := none }, .script x⟩ := by
+  obtain ⟨pre, post, hl, rfl⟩ := h
+  subst hl
+  simp [instrsFrom_cons]
+
+theorem At.program (b : Block) : At (program b) 0 b.flatten :=
+  ⟨[], [], rfl, by simp [instrsFrom, program]⟩
+
+theorem length_program (b : Block) : (program b).length = b.flatten.length :=
+  length_instrsFrom 0 b.flatten
+
+/-! ### binding of literal words -/
+
+theorem litOK_of_isLiteral {w : Str} (h : isLiteral w = true) : LitOK w := by
+  intro c hc
+  have := (List.all_eq_true.mp h) c hc
+  simpa using this
+
+theorem bind_cons (vars : Vars) (a : Str) (rest : List Str) :
+    bind vars (some (a :: rest)) = bind vars (some [a]) ++ bind vars (some rest) := by
+  simp [bind]
+
+theorem bind_literal (vars : Vars) (w : Str) (h : isLiteral w = true) :
+    bind vars (some [w]) = [w] := by
+  have := bind_templates vars [[Seg.lit w]] (by
+    intro t ht s hs
+    simp at ht
+    subst ht
+    simp at hs
+    subst hs
+    exact litOK_of_isLiteral h)
+  simpa [renderTemplate, Seg.render, tmplValue, Seg.value] using this
+
+theorem bind_cons_literal (vars : Vars) (w : Str) (rest : List Str) (h : isLiteral w = true) :
+    bind vars (some (w :: rest)) = w :: bind vars (some rest) := by
+  rw [bind_cons, bind_literal vars w h]
+  rfl
+
+theorem bind_none (vars : Vars) : bind vars none = [] := rfl
+theorem bind_some_nil (vars : Vars) : bind vars (some []) = [] := rfl
+
+/-- the written arguments of a tree line, as they sit in the instruction -/
+theorem bind_mkArgs (vars : Vars) (args : List Str) :
+    bind vars (if args.isEmpty then none else some args) = bind vars (some args) := by
+  cases args <;> rfl
+
+/-! ### command resolution does not depend on the state in the fragment -/
+
+theorem resolveCmd_of_empty {c : Str} {x : Cmd} (s : Sdk) (h : resolveCmd {} c = some x) :
+    resolveCmd s c = some x := by
+  unfold resolveCmd at h ⊢
+  repeat' split at h
+  all_goals first
+    | (simp_all; done)
+    | (exfalso; simp [KV.get] at h; done)
+    | skip
+  all_goals simp_all
+
+theorem resolveCmd_none_of_empty {c : Str} (s : Sdk) (hs : s.fns = [])
+    (h : (resolveCmd {} c).isNone = true) : resolveCmd s c = none := by
+  unfold resolveCmd at h ⊢
+  rw [hs]
+  exact Option.isNone_iff_eq_none.mp h
 
 end Duck
